@@ -228,15 +228,52 @@ func (w *W) c16Judge(k int, g string, doc []byte, nd bool) {
 	inMsg, _ := countAliased(npj)
 	w.Count("strings_aliasing_input_in_no_copy_mode", inMsg)
 	// (c) Clone independence: of a copy-mode and of a no-copy tape
-	for variant := 0; variant < 2; variant++ {
+	for variant := 0; variant < 4; variant++ {
 		src := npj
 		srcBuf := buf
-		if variant == 1 {
+		switch variant {
+		case 1:
 			srcBuf = append([]byte{}, doc...)
 			src, err = parse(srcBuf, true, nil)
 			if err != nil {
 				return
 			}
+		case 2:
+			// the document deserialized into an object that a default (copying) Parse filled before:
+			// whatever that parser remembers about its last call says nothing about this tape
+			if (k+2)%3 != 0 {
+				continue
+			}
+			prev, e := simdjson.Parse([]byte(`{"earlier":"default parse","x":["a","b",1.5]}`), nil)
+			if e != nil {
+				continue
+			}
+			srcBuf = append([]byte{}, doc...)
+			p2, e := parse(srcBuf, true, nil)
+			if e != nil {
+				return
+			}
+			perr := walk.Guard(func() error {
+				ser := simdjson.NewSerializer()
+				src, err = ser.Deserialize(ser.Serialize(nil, *p2), prev)
+				return nil
+			})
+			if perr != nil || err != nil {
+				w.Count("serialize_roundtrip_failed_(C11)", 1)
+				continue
+			}
+		case 3:
+			// a document no parser is attached to (a clone of a clone), the way ParseND results,
+			// stream values and clones are
+			if (k+1)%3 != 0 {
+				continue
+			}
+			srcBuf = append([]byte{}, doc...)
+			p2, e := parse(srcBuf, true, nil)
+			if e != nil {
+				return
+			}
+			src = p2.Clone(nil).Clone(nil)
 		}
 		var dst *simdjson.ParsedJson
 		switch r.Intn(3) {
@@ -343,6 +380,20 @@ func (w *W) c16Judge(k int, g string, doc []byte, nd bool) {
 					w.Violation(fmt.Sprintf("C16/original-changed-by-parse-into-clone/src-copy=%v", variant == 1), fmt.Sprintf("Parse(other, clone) changed the original the clone was made from: %s; doc=%s", d, q(doc)), cs)
 					return
 				}
+			}
+		}
+		// the original recycled as the destination of another Clone (its buffers are rewritten in
+		// place) must not reach the clone
+		if variant >= 2 || r.Chance(1, 3) {
+			cvr := observe(cl, true)
+			if od, e := simdjson.Parse([]byte(`{"recycled":["original","as","destination"],"n":[1,2,3.5,"`+string(bytes.Repeat([]byte("R"), r.Intn(300)))+`"]}`), nil); e == nil {
+				walk.Guard(func() error { od.Clone(src); return nil })
+				w.Eval(1)
+				if d := sameView(cvr, observe(cl, true)); d != "" {
+					w.Violation(fmt.Sprintf("C16/clone-changed-when-original-was-recycled/variant%d", variant), fmt.Sprintf("other.Clone(original) changed the clone made from the original earlier: %s; doc=%s", d, q(doc)), cs)
+					return
+				}
+				w.Count("originals_recycled_as_clone_destination", 1)
 			}
 		}
 		// a clone survives the loss of the input even when its source referenced it
